@@ -134,7 +134,9 @@ struct Ctx
   Stats st;
   const Property * prop = nullptr;
   const char * cur_check = "";
-  static const size_t NONTRIVIAL_CAP = 1u << 21; // per shard
+  size_t nontrivial_cap = 1u << 17; // per shard (quick); thorough raises it to 2^21
+  bool sampling = false;
+  std::vector<int64_t> cur_results; // return values of the library calls made while judging the sampled case
 
   uint64_t n(uint64_t quick, uint64_t thorough_n) const
     { double v = (double)(thorough ? thorough_n : quick) * scale; return v < 1 ? 1 : (uint64_t)v; }
@@ -146,7 +148,7 @@ struct Ctx
   void stratum(const char * s, uint64_t k = 1) { st.strata[s] += k; }
   void nontrivial(uint64_t h)
     {
-    if(st.nontrivial.size() < NONTRIVIAL_CAP) st.nontrivial.insert(h);
+    if(st.nontrivial.size() < nontrivial_cap) st.nontrivial.insert(h);
     else ++st.nontrivial_overflow;
     }
   void maxi(const char * name, long double v, const char * check, int64_t a, int64_t b = 0);
@@ -154,7 +156,14 @@ struct Ctx
   void violation(const std::string & key, int cfg_index, int64_t a, int64_t b, int64_t c, const std::string & observed, const std::string & expected);
   void signal_event(int cfg_index, const char * entry, int64_t a, int64_t b, int sig);
   void run_check(const Check & ck, int64_t a, int64_t b = 0, int64_t c = 0)
-    { cur_check = ck.name; ++st.per_check[ck.name]; ++st.cases; ck.judge(*this, a, b, c); }
+    {
+    cur_check = ck.name; uint64_t k = ++st.per_check[ck.name]; ++st.cases;
+    sampling = st.samples.size() < 16 && (k == 1 || (hash3(77, a, b, c) & 0xffff) == 0);
+    if(sampling) { cur_results.clear(); uint64_t v0 = vio_total(); ck.judge(*this, a, b, c); record_sample(ck.name, a, b, c, vio_total() != v0); sampling = false; }
+    else ck.judge(*this, a, b, c);
+    }
+  uint64_t vio_total() const { uint64_t t = 0; for(auto & v : st.vio) t += v.second.count; return t; }
+  void record_sample(const char * check, int64_t a, int64_t b, int64_t c, bool violated);
   };
 
 std::string i2s(int64_t v);
